@@ -318,7 +318,10 @@ def _viol_gen(item, vals, part, form, what, cause, seed):
     if item.get("type2"):
         inp["type2"] = item["type2"]
         inp["value2"] = vals[1]
-    return {"sig": {"part": part, "form": form, "cause": cause}, "input": inp, "what": what, "_type": item["type"] + ("+" + item["type2"] if item.get("type2") else "")}
+    sig = {"part": part, "form": form, "cause": cause}
+    if item.get("mode", "req") != "req":
+        sig["mode"] = item["mode"]
+    return {"sig": sig, "input": inp, "what": what, "_type": item["type"] + ("+" + item["type2"] if item.get("type2") else "")}
 
 
 def run_gen(item):
@@ -518,6 +521,9 @@ def gen_items(tier):
                 continue
             items.append({"type": ts, "consts": cv, "mode": "req"})
         items.append({"type": ts, "consts": "none", "mode": "dflt"})
+    for a in G.ATOMS:  # Optional[atom] in a parent, @make_mandatory in the child
+        for cv in ("none", "ld"):
+            items.append({"type": a, "consts": cv, "mode": "mand"})
     if q:
         d3 = [t for t in G.enumerate_types(3, union_atoms=CORE_UNION_ATOMS) if t not in set(G.enumerate_types(2, union_atoms=CORE_UNION_ATOMS))]
     else:
@@ -533,22 +539,32 @@ def gen_items(tier):
     return items, two, len(d2), len(d3)
 
 
-def installed_items(pool, tier, names):
-    q = tier == "quick"
+PAIR_K = {"quick": 2, "thorough": 8}
+
+
+def run_installed_family(pool, tier, names, seed):
+    """bound 0 and 1 with the full corpora first; bound 2 afterwards, not re-combining values that fail on their own"""
     probes = pool.map("probe_installed", names, chunk=1, item_deadline=300)
-    items = []
     info = {}
+    singles = []
     for name, (nf, ok, err) in zip(names, probes):
         info[name] = {"fields": nf, "minimal_ok": ok, "error": err}
-        if not ok:
-            continue
-        items.append((name, None, None, False))
-        for i in range(nf):
-            items.append((name, i, None, False))
-        for i in range(nf):
-            for j in range(i + 1, nf):
-                items.append((name, i, j, q))
-    return items, info
+        if ok:
+            singles.append((name, None, None, None, [], []))
+            singles += [(name, i, None, None, [], []) for i in range(nf)]
+    res1 = pool.map("run_installed", singles, chunk=2, item_deadline=600)
+    bad = {}
+    for it, r in zip(singles, res1):
+        if r != parallel.HANG and it[1] is not None:
+            bad[(it[0], it[1])] = sorted(r["failed_idx"])
+    pairs = []
+    k = PAIR_K[tier]
+    for name in names:
+        if info[name]["minimal_ok"]:
+            nf = info[name]["fields"]
+            pairs += [(name, i, j, k, bad.get((name, i), []), bad.get((name, j), [])) for i in range(nf) for j in range(i + 1, nf)]
+    res2 = pool.map("run_installed", pairs, chunk=4 if tier == "quick" else 1, item_deadline=900)
+    return singles + pairs, list(res1) + list(res2), info
 
 
 def _merge(total, r):
@@ -565,7 +581,8 @@ def _finalise_sigs(viols):
         t = v.get("_type")
         if t in G.ATOMS:
             s = v["sig"]
-            atom_fail.setdefault((s["part"], s["form"], s["cause"]), []).append(t)
+            if "mode" not in s:
+                atom_fail.setdefault((s["part"], s["form"], s["cause"]), []).append(t)
     out = []
     for v in viols:
         v = dict(v)
@@ -635,16 +652,18 @@ def run(tier, seed):
                 classes += 1
                 _merge(two_total, r)
                 viols += r["viol"]
-        inst_items, inst_info = installed_items(pool, tier, names)
-        res = pool.map("run_installed", inst_items, chunk=4, item_deadline=600)
+        t_gen = time.time() - t0
+        inst_items, res, inst_info = run_installed_family(pool, tier, names, seed)
         inst_total = dict(total, rej_kinds={})
         inst_samples = []
+        subsumed = 0
         for it, r in zip(inst_items, res):
             if r == parallel.HANG:
                 hangs += 1
                 viols.append({"sig": {"part": "hang", "form": "-", "cause": "other", "schema": it[0]}, "input": {"kind": "installed", "schema": it[0], "item": list(it), "seed": seed}, "what": "case hung the worker"})
                 continue
             _merge(inst_total, r)
+            subsumed += r["subsumed"]
             viols += r["viol"]
             if r["sample"] and len(inst_samples) < 60:
                 inst_samples.append(r["sample"])
@@ -675,7 +694,9 @@ def run(tier, seed):
         "families": {"generated": gen_total, "two_field": two_total, "installed": inst_total},
         "installed": inst_info,
         "installed_deviation_bound": 2,
-        "installed_pair_corpora": "first two corpus values + omission per field" if tier == "quick" else "full corpora",
+        "installed_pair_corpora": f"bound 1: full corpora; bound 2: first {PAIR_K[tier]} corpus values + None + omission per field",
+        "installed_pairs_subsumed_by_failing_single": subsumed,
+        "wall_s_generated": round(t_gen, 1),
         "hangs": hangs,
         "samples": pick(samples, 12) + pick(inst_samples, 4),
         "exhaustive": hangs == 0,
@@ -686,8 +707,10 @@ def run(tier, seed):
             "Optional/List/Set around List/Set/Optional/Union types"
             + (" with constants 'none'" if tier == "quick" else " x all constant variants, Union[a,b,c] over all ordered triples of " + " ".join(TRIPLE_ATOMS) + ", plus two-field classes for all ordered pairs of atoms x the product of both corpora")
             + ". Each class x the complete boundary corpus of its type (schema_grammar.atom_corpus; lists/sets: empty, every singleton, "
-            "pair, duplicate; explicit None; omission). Installed: the 14 schema plugins, minimal instance + every deviation of <=2 fields "
-            "(values from the corpus of the declared field type, plus one undeclared extra key). A case is an (class, input) pair; it is "
+            "pair, duplicate; explicit None; omission); Optional[atom] parents with a @make_mandatory child. Installed: the 14 schema plugins, "
+            "minimal instance + every deviation of 1 field with the full corpus of the declared field type (plus one undeclared extra key) + "
+            f"every deviation of 2 fields over the first {PAIR_K[tier]} corpus values + None + omission of each field (a value that already fails "
+            "alone is not combined again). A case is an (class, input) pair; it is "
             "non-trivial and distinct when the input is accepted and its JSON bytes (with >=1 non-constant key) were not seen before for that class. "
             "NaN-holding instances (NaN != NaN) are only checked for parsability. VERIF_SEED renames field names/letters/unicode/host only."
         ),
